@@ -6,7 +6,7 @@ INFO = {
  'C02': ("same-thread async-then-sync submission order on a serial queue", "three threads: T1 mid-push between tail exchange and head store on an idle queue; T3 pushes behind it (no wake-up), then T3's dispatch_sync fast path checks dq_items_head instead of dq_items_tail and overtakes"),
  'C03': ("", ""),
  'C04': ("a dispatch_async submitted after dispatch_barrier_async returned starts before the barrier", "a reader in flight, barrier parked as PENDING_BARRIER, last reader re-enqueues the queue (state only ENQUEUED); an async arriving before a worker takes the drain lock redirects past the barrier because _dispatch_lane_concurrent_push no longer checks dq_items_tail"),
- 'C05': ("", ""),
+ 'C05': ("a dispatch_sync / dispatch_async_and_wait caller returns from its park without having been handed the queue: two items of one serial queue overlap, an item runs twice, waiters are stranded, stack-resident waiter records are used after return (crash)", "a contended synchronous submission parked in _dispatch_thread_event_wait_slow whose futex wait returns 0 without the event having been signalled (spurious futex wake-up, which futex(2) permits): the waiter no longer re-reads dte_value after the wake"),
  'C06': ("blocked dispatch_sync callers / non-barrier items start while the queue is suspended from one of its own items", "the item in progress is a dispatch_sync (serial) or dispatch_barrier_sync (concurrent) block that suspends the queue, with a sync waiter or a non-barrier item at the head when it returns: _dispatch_lane_barrier_complete no longer re-checks suspension before handing off"),
  'C07': ("dispatch_group_wait returns 0 although the count never reached zero during the call", "group reused across generations: the last leave of generation g is delayed before its wake-by-address while another thread re-enters and blocks in dispatch_group_wait on g+1; the late wake-up makes it return 0 without re-checking the generation"),
  'C08': ("successful waits exceed v + signals (a timed-out waiter invents a permit)", "a signal landing between a timed/polling waiter's time-out and its re-read of the value: the undo loop now also runs for value 0, so the signal exists both as value 1 and as a pending wake-up"),
